@@ -56,4 +56,27 @@ example : ((exG.run [(0, false), (1, false), (1, true), (0, false), (1, false), 
     (fun r => r.map (fun ms => ms.map (fun m => (m.ptrOff, m.ptrSize))))) = [some [(40, 20), (90, 10)], some [(60, 30)]] := by
   decide +kernel
 
+
+/-! ### the shape of the code the proofs above rely on, re-checked against the call-site table regenerated from
+    `sync.rs` on every run (`Gen/Orderings.lean`) -/
+
+/-- the bump cursor is only ever moved by a compare-and-swap on the value that was read — the unsafe `rewind`
+    apart. (A plain store, a `fetch_add` or a load-then-store here loses a concurrent allocation.) -/
+theorem cursor_moved_by_cas_only :
+    ∀ s ∈ Gen.sites, s.loc = "allocated" →
+      s.kind = "load" ∨ s.kind = "compare_exchange" ∨ s.kind = "compare_exchange_weak" ∨ s.fn = "rewind" := by
+  decide
+
+/-- the sentinel (head of the free list) is only changed by compare-and-swap -/
+theorem sentinel_moved_by_cas_only :
+    ∀ s ∈ Gen.sites, s.loc = "sentinel" → s.kind = "load" ∨ s.kind = "compare_exchange" := by
+  decide
+
+/-- a node word is written only by the initialising store of a node that is not yet linked (`update_next_node`) or
+    by compare-and-swap -/
+theorem node_words_written_by_cas_or_init :
+    ∀ s ∈ Gen.sites, s.loc = "node" →
+      s.kind = "load" ∨ s.kind = "compare_exchange" ∨ (s.kind = "store" ∧ s.fn = "update_next_node") := by
+  decide
+
 end Rarena.C02
